@@ -92,3 +92,61 @@ Fixpoint hmism_from (keep : bool) (i : N) (cs : list hcase) : list (N * N) :=
       if N.eqb code 0 then hmism_from keep (N.succ i) r else (i, code) :: hmism_from keep (N.succ i) r
   end.
 Definition hmismatches (keep : bool) (cs : list hcase) : list (N * N) := hmism_from keep 0 cs.
+
+(* object db: the live {path: {scope: (call_info, per_name)}} before close, and what the save wrote
+   (read back from the JSON side file, which holds every ScopeInfo's __getstate__) *)
+Require Import RopeVerif.C12.Runner.
+Record ocase := {
+  oc_digits : list N;
+  oc_db : objdb;
+  oc_saved : list (text * list (text * (jsval * list jsval * text)))
+}.
+Definition state_eqb (s : state) (t : jsval * list jsval * text) : bool :=
+  jsval_eqb (st_data s) (fst (fst t)) && jsval_eqb (JArr (st_refs s)) (JArr (snd (fst t)))
+  && text_eqb (st_marker s) (snd t).
+Fixpoint sscopes_eqb (a : saved_scopes) (b : list (text * (jsval * list jsval * text))) : bool :=
+  match a, b with
+  | [], [] => true
+  | (k, s) :: a', (k', t) :: b' => text_eqb k k' && state_eqb s t && sscopes_eqb a' b'
+  | _, _ => false
+  end.
+Fixpoint sdb_eqb (a : saved_db) (b : list (text * list (text * (jsval * list jsval * text)))) : bool :=
+  match a, b with
+  | [], [] => true
+  | (p, s) :: a', (p', t) :: b' => text_eqb p p' && sscopes_eqb s t && sdb_eqb a' b'
+  | _, _ => false
+  end.
+Fixpoint scopes_eqb (a b : scopes) : bool :=
+  match a, b with
+  | [], [] => true
+  | (k, (c, p)) :: a', (k', (c', p')) :: b' =>
+      text_eqb k k' && pyval_eqb c c' && pyval_eqb p p' && scopes_eqb a' b'
+  | _, _ => false
+  end.
+Fixpoint objdb_eqb (a b : objdb) : bool :=
+  match a, b with
+  | [], [] => true
+  | (p, s) :: a', (p', t) :: b' => text_eqb p p' && scopes_eqb s t && objdb_eqb a' b'
+  | _, _ => false
+  end.
+(* 0 agree; 1 model cannot save a db the implementation saved; 2 saved states differ; 3 model load
+   of the saved states does not give the db back (excluded by C12_objectdb_roundtrip when wf) *)
+Definition run_ocase (c : ocase) : N :=
+  let isd := isdig_of (oc_digits c) in
+  match save_db isd (oc_db c) with
+  | None => 1%N
+  | Some sd =>
+      if negb (sdb_eqb sd (oc_saved c)) then 2%N
+      else match load_db isd sd with
+           | Some d => if objdb_eqb d (oc_db c) then 0%N else 3%N
+           | None => 3%N
+           end
+  end.
+Fixpoint omism_from (i : N) (cs : list ocase) : list (N * N) :=
+  match cs with
+  | [] => []
+  | c :: r =>
+      let code := run_ocase c in
+      if N.eqb code 0 then omism_from (N.succ i) r else (i, code) :: omism_from (N.succ i) r
+  end.
+Definition omismatches (cs : list ocase) : list (N * N) := omism_from 0 cs.
